@@ -15,6 +15,7 @@ old or their new complete value; nothing raises.
 """
 import json
 import os
+import re
 import pickle
 import shutil
 import sys
@@ -141,13 +142,17 @@ def plain_values(world):
         shutil.rmtree(d, ignore_errors=True)
 
 
+# the temporary names of the store: <name>.<pid>.<32 hex digits>.tmp (a kept path may itself be called x.tmp)
+TEMPORARY = re.compile(r"\.\d+\.[0-9a-f]{32}\.tmp$")
+
+
 def observe(d):
     """the published part of the store directories: keys with a blob file, keys with metadata, links"""
     blobs, metas, links = set(), set(), {}
     bd = os.path.join(d, "internal", "blobs")
     if os.path.isdir(bd):
         for f in os.listdir(bd):
-            if f.endswith(".tmp"):
+            if TEMPORARY.search(f):
                 continue
             if f.endswith(".meta"):
                 metas.add(f[:-5])
@@ -157,7 +162,7 @@ def observe(d):
     for r, dirs, files in os.walk(dd):
         for f in files + dirs:
             p = os.path.join(r, f)
-            if os.path.islink(p) and not f.endswith(".tmp"):
+            if os.path.islink(p) and not TEMPORARY.search(f):
                 links["/".join(os.path.relpath(p, dd).split(os.sep))] = os.path.basename(os.readlink(p))
     return {"blobs": sorted(blobs), "metas": sorted(metas), "links": sorted(links.items())}
 
